@@ -379,10 +379,39 @@ R.contract(
     "QuicConnection.receive_datagram@record",
     region={"anchor": "writes:ack_at"},  # the statement (with its enclosing ifs) that arms the acknowledgement deadline
     params={"space": "QuicPacketSpace", "packet_number": "int", "now": "float", "is_ack_eliciting": "bool"},
-    # time is monotone: a deadline armed by an earlier packet lies at or before now + delay
-    assume_pre=["packet_number >= 0", "invariant_of(space.ack_queue)", "self._ack_delay >= 0", "implies(space.ack_at is not None, some(space.ack_at) <= now + self._ack_delay)"],
+    # time is monotone: a deadline armed by an earlier packet lies at or before now + delay; the numbers waiting to be
+    # acknowledged never exceed the largest number recorded (inductive: re-established below, preserved by
+    # _on_ack_delivery which only removes numbers)
+    assume_pre=["packet_number >= 0", "invariant_of(space.ack_queue)", "self._ack_delay >= 0", "implies(space.ack_at is not None, some(space.ack_at) <= now + self._ack_delay)",
+                "forall(lambda x: implies(space.ack_queue.gview[x], x <= space.largest_received_packet))"],
+    let={"top": "max(space.largest_received_packet, packet_number)"},
+    locals={"g_v1": "map[int,bool]", "g_n1": "int"},
+    # snapshot after add(), before the forgetting loop
+    ghost_at={"while len(space.ack_queue) > MAX_ACK_RANGES:": {"g_v1": "space.ack_queue.gview", "g_n1": "len(RL(space.ack_queue))"}},
+    loops={0: dict(
+        invariant=[
+            "len(RL(space.ack_queue)) <= g_n1",
+            "implies(g_n1 <= 32, forall(lambda x: space.ack_queue.gview[x] == g_v1[x]))",
+            "forall(lambda x: implies(space.ack_queue.gview[x], old(space.ack_queue.gview)[x] or x == packet_number))",
+            "forall(lambda x: implies(space.ack_queue.gview[x], x <= top))",
+            "implies(packet_number == top, space.ack_queue.gview[packet_number])",
+            "space.largest_received_packet == top",
+            "invariant_of(space.ack_queue)",
+        ],
+        modifies=["space.ack_queue._RangeSet__ranges", "space.ack_queue.gview", "space.ack_queue.gidx"],
+        decreases="len(RL(space.ack_queue))",
+    )},
     ensures=[
-        "implies(not space.discarded, forall(lambda x: space.ack_queue.gview[x] == (old(space.ack_queue.gview)[x] or x == packet_number)))",
+        # C12 soundness: nothing but this packet's number joins the set to be acknowledged ...
+        "forall(lambda x: implies(space.ack_queue.gview[x], old(space.ack_queue.gview)[x] or x == packet_number))",
+        # ... it does join it whenever it carries the highest number received so far (older ranges may be forgotten when more
+        # than MAX_ACK_RANGES ranges are tracked, RFC 9000 13.2.4 - never the newest one)
+        "implies(not space.discarded and packet_number >= old(space.largest_received_packet), space.ack_queue.gview[packet_number])",
+        # at most MAX_ACK_RANGES ranges are tracked, so an ACK frame always fits the room _write_ack_frame announces
+        "implies(not space.discarded, len(RL(space.ack_queue)) <= 32)",
+        # while that bound is not reached nothing is forgotten: the set is exactly old + this number
+        "implies(not space.discarded and old(len(RL(space.ack_queue))) < 32, forall(lambda x: space.ack_queue.gview[x] == (old(space.ack_queue.gview)[x] or x == packet_number)))",
+        "forall(lambda x: implies(space.ack_queue.gview[x], x <= space.largest_received_packet))",
         "implies(space.discarded, forall(lambda x: space.ack_queue.gview[x] == old(space.ack_queue.gview)[x]) and space.ack_at == old(space.ack_at))",
         "implies(not space.discarded and is_ack_eliciting, space.ack_at is not None and some(space.ack_at) <= now + self._ack_delay)",
         "implies(old(space.ack_at) is not None, space.ack_at is not None and some(space.ack_at) == some(old(space.ack_at)))",
@@ -416,4 +445,64 @@ R.contract(
         "space.ack_at == old(space.ack_at)",
     ],
     prop=["C12"],
+)
+
+
+# ------------------------------------------------------------------------------------------------ writing ACK frames (C12, C13, C05)
+R.field_types("QuicConnection", _local_ack_delay_exponent="int")
+
+# PING (also the "ACK-of-ACK trigger"): one byte, one delivery handler
+R.contract(
+    "QuicConnection._write_ping_frame",
+    params={"uids": "list[int]", "comment": "str"},
+    requires=["builder._packet is not None"],
+    assume_pre=["self._quic_logger is None or builder.quic_logger_frames is not None"],
+    let={"pkt": "some(builder._packet)"},
+    raises={"QuicPacketBuilderStop": None},
+    on_raise={"QuicPacketBuilderStop": ["builder._buffer.g_pos == old(builder._buffer.g_pos)", "len(pkt.delivery_handlers) == old(len(pkt.delivery_handlers))"]},
+    modifies=["builder._buffer.g_pos", "builder._buffer.g_mem", "QuicSentPacket.is_ack_eliciting[*]", "QuicSentPacket.in_flight[*]",
+              "QuicSentPacket.is_crypto_packet[*]", "QuicSentPacket.delivery_handlers[*]"],
+    ensures=["builder._buffer.g_pos == old(builder._buffer.g_pos) + 1", "pkt.is_ack_eliciting", "builder._packet == old(builder._packet)",
+             "len(pkt.delivery_handlers) == old(len(pkt.delivery_handlers)) + 1"],
+    prop=["C12"],
+)
+
+# C12 / C13 / C05: the ACK frame.  The room announced to the packet builder covers everything push_ack_frame writes
+# (1 type byte + 4 varints + 2 varints per further range), so the builder's caller obligation "bytes pushed after
+# start_frame stay within the announced capacity" holds and BufferWriteError cannot escape; the frame lists exactly the
+# recorded ranges (push_ack_frame, proved at byte level under C17); the acknowledgement deadline is cleared only together
+# with a written frame; the delivery handler that prunes the ranges once the ACK is itself acknowledged is registered.
+R.contract(
+    "QuicConnection._write_ack_frame",
+    requires=["builder._packet is not None", "space.largest_received_time is not None"],
+    assume_pre=[
+        # established by receive_datagram@record (at most MAX_ACK_RANGES ranges, never empty once a packet was recorded) and
+        # preserved by _on_ack_delivery, which removes a prefix [0, n] of the numbers (cannot add a range; the count clause of
+        # subtract is not proved) - numbers are QUIC packet numbers
+        "1 <= len(RL(space.ack_queue)) <= 32", "invariant_of(space.ack_queue)",
+        "sel(RL(space.ack_queue), 0).start >= 0 and sel(RL(space.ack_queue), len(RL(space.ack_queue)) - 1).stop <= 4611686018427387904",
+        # the clock: now is not before the arrival of the newest packet and less than 2^40 s after it; exponent is a transport
+        # parameter in 0..20 (configuration)
+        "now >= some(space.largest_received_time) and now - some(space.largest_received_time) <= 1099511627776",
+        "0 <= self._local_ack_delay_exponent <= 20",
+        "self._quic_logger is None or builder.quic_logger_frames is not None", "not builder.g_ovr",
+    ],
+    let={"pkt": "some(builder._packet)", "n_": "len(RL(space.ack_queue))"},
+    raises={"QuicPacketBuilderStop": None},
+    # refused before anything was written, or the ACK frame is in the packet and only the extra PING did not fit
+    on_raise={"QuicPacketBuilderStop": ["(space.ack_at == old(space.ack_at) and builder._buffer.g_pos == old(builder._buffer.g_pos)) or (space.ack_at is None and builder._buffer.g_pos > old(builder._buffer.g_pos))",
+                                        "same(RL(space.ack_queue), old(RL(space.ack_queue)))"]},
+    modifies=["space.ack_at", "builder._buffer.g_pos", "builder._buffer.g_mem", "QuicSentPacket.is_ack_eliciting[*]", "QuicSentPacket.in_flight[*]",
+              "QuicSentPacket.is_crypto_packet[*]", "QuicSentPacket.delivery_handlers[*]", "builder.quic_logger_frames"],
+    ensures=[
+        "space.ack_at is None",
+        "same(RL(space.ack_queue), old(RL(space.ack_queue)))",
+        "forall(lambda x: space.ack_queue.gview[x] == old(space.ack_queue.gview)[x])",
+        # within the announced capacity (+ the optional one-byte PING)
+        "builder._buffer.g_pos - old(builder._buffer.g_pos) <= 33 + 16 * (n_ - 1) + 1",
+        "builder._buffer.g_pos > old(builder._buffer.g_pos)",
+        "len(pkt.delivery_handlers) >= old(len(pkt.delivery_handlers)) + 1",
+        "builder._packet == old(builder._packet)",
+    ],
+    prop=["C12", "C13", "C05"],
 )
